@@ -321,6 +321,22 @@ OnSummary(S, m, e) ==
                   \A r \in m.appended : (r[3] = "finished" => r \in m.reported))
   IN [a10 EXCEPT !.summaries = @ + 1, !.lastSummary = [res |-> e.res, missing |-> e.missing, tally |-> e.tally]]
 
+\* one Cluster API operation by a handle (focused C10 runs): versions of the handle's copies and of the files when
+\* the operation got the lock, the exception it raised, whether any of the four files changed
+OnCop(S, m, e) ==
+  LET staleC == e.loaded /\ e.wcfg /\ e.hcver # e.dcver
+      staleJ == e.loaded /\ e.wjs /\ e.hjver # e.djver
+      mism == e.exc \in {"ConfigVersionMismatch", "JobStatusVersionMismatch"}
+      \* a stale handle changes nothing on disk; if its operation got as far as writing, it ends with the mismatch error
+      \* (an operation that decides from its copy not to write at all, e.g. promote on a copy that shows a submitter,
+      \* returns normally)
+      m1 == Check(m, "StaleWriteRejected", (staleC \/ staleJ) /\ e.exc # "Timeout", ~e.changed /\ (mism \/ e.exc = ""))
+      m2 == Check(m1, "PromotionRefusedWhileHeld", e.op \in {"loadp"} /\ e.before # "" /\ e.exc = "", ~e.ok /\ ~e.changed)
+      m3 == Check(m2, "PromotionGrantedOnlyWhenFree", e.ok, e.before = "")
+      m4 == Check(m3, "OneSubmitter", e.ok, m.holder \in {0, e.pid})
+  IN [m4 EXCEPT !.holder = IF e.ok THEN e.pid
+                           ELSE IF e.op = "demote" /\ e.exc = "" /\ @ = e.pid THEN 0 ELSE @]
+
 OnFault(S, m, e) == [m EXCEPT !.faulty = TRUE]
 OnSqueue(S, m, e) == IF e.ok THEN m ELSE [m EXCEPT !.faulty = TRUE]
 OnScancel(S, m, e) == [m EXCEPT !.scancelled = @ \cup {e.b}]
@@ -351,6 +367,7 @@ MonStep(S, m0, e) ==
     [] e.e = "summary"   -> OnSummary(S, m, e)
     [] e.e = "squeue"    -> OnSqueue(S, m, e)
     [] e.e = "scancel"   -> OnScancel(S, m, e)
+    [] e.e = "cop"       -> OnCop(S, m, e)
     [] e.e \in {"kill", "fault"} -> OnFault(S, m, e)     \* injected faults only; a lock timeout or a broken marker is
                                                          \* what the environment does with markers JADE itself left behind
     [] e.e = "end"       -> OnEnd(S, m, e)
@@ -376,7 +393,7 @@ ClausesOf(c) ==
     [] c = "C09" -> {"StatusJobsMatchConfig", "CountersOrdered", "CompletedMatchesDone", "SubmittedMatchesStates", "DoneHasResult",
                      "VersionFilesAgree", "SubmittedHasNoBlockers", "VersionsNeverDecrease", "VersionsIncreaseWithChange",
                      "CountersMonotone", "StateAdvances", "BlockersShrink", "CompleteSticky", "BatchIndexMonotone"}
-    [] c = "C10" -> {"OneSubmitter", "PromotionRefusedWhileHeld", "PromotionGrantedOnlyWhenFree"}
+    [] c = "C10" -> {"OneSubmitter", "PromotionRefusedWhileHeld", "PromotionGrantedOnlyWhenFree", "StaleWriteRejected"}
     [] c = "C12" -> {"MissingExact", "NoFabricatedResult", "FinishedKeepResults", "ResultKnownJob", "ResultStatusKnown", "OneResultPerJob"}
     [] c = "C14" -> {"NoSbatchAfterCancel", "ActiveBatchesCancelled"}
     [] c = "C20" -> {"TallyPartition"}
